@@ -11,6 +11,14 @@ Driver for the interconnect family.  One line = one call of `interconnect`:
   SIG    := a | i <int> | l <count> <int>* | n <count> NAMETOK*
   NAMETOK:= sl <base> (_|<nat>) (_|<nat>) | bs <name> | ex <name>
 
+or one operator expression on I/O systems (`NonlinearIOSystem.__add__`, … , `feedback`):
+
+  ic op EXPR
+  EXPR   := s SYS | k <p> <m> <rat>*            (leaf; number / array as `_convert_to_iosystem` makes it)
+          | add EXPR EXPR | sub EXPR EXPR | mul EXPR EXPR | neg EXPR | fb EXPR EXPR <sign rat>
+
+(every inner node is evaluated to its linear system, which is the subsystem of the node above).
+
 Answer: `ok <nin> <nout> cm MAT im MAT om MAT (lin <n> A B C D | nl)` or `err <Err>`.
 The maps come from `IC.interconnect`; the linear part runs `IC.staticLoop` on the batch of unit
 perturbations with `Wiring.stepN` (= `Wiring.step`, tabulated between cycles) and reads A, B, C, D off
@@ -154,7 +162,7 @@ def colsR {r a b : Nat} (M : Matrix (Fin r) (Fin (a + b)) Q) : Matrix (Fin r) (F
 
 /-- the linear interconnection: batch of unit perturbations of the `N` states and `nin`
 external inputs, propagation loop, then `_rhs` / `_out`. -/
-def linearPart (nsys : Nat) (m : Maps Q) (G : DSS Q) : Except String (Except Err String) :=
+def linearSys (nsys : Nat) (m : Maps Q) (G : DSS Q) : Except String (Except Err (DSS Q)) :=
   if h : G.m = m.nu ∧ G.p = m.ny then
     let g : SS (Fin G.n) (Fin m.nu) (Fin m.ny) Q := G.sys.castIO h.2 h.1
     let kc := tabulate (toMat m.nu m.ny m.connect)
@@ -186,9 +194,119 @@ def linearPart (nsys : Nat) (m : Maps Q) (G : DSS Q) : Except String (Except Err
       let cd := tabulate (W.out g Xs U)
       let AB : Matrix (Fin G.n) (Fin (G.n + m.nin)) Q := ofTable ab
       let CD : Matrix (Fin m.nout) (Fin (G.n + m.nin)) Q := ofTable cd
-      .ok (.ok (s!"lin {G.n} " ++ showMat (colsL AB) ++ " " ++ showMat (colsR AB) ++ " "
-        ++ showMat (colsL CD) ++ " " ++ showMat (colsR CD)))
+      .ok (.ok (SS.force ⟨G.n, m.nout, m.nin, ⟨colsL AB, colsR AB, colsL CD, colsR CD⟩, .cont⟩))
   else .error "stack-shape"
+
+def showLin (T : DSS Q) : String :=
+  s!"lin {T.n} " ++ showMat T.sys.A ++ " " ++ showMat T.sys.B ++ " "
+    ++ showMat T.sys.C ++ " " ++ showMat T.sys.D
+
+def linearPart (nsys : Nat) (m : Maps Q) (G : DSS Q) : Except String (Except Err String) :=
+  (linearSys nsys m G).map fun r => r.map showLin
+
+def showMaps (m : Maps Q) : String :=
+  s!"ok {m.nin} {m.nout} cm " ++ showMat (toMat m.nu m.ny m.connect)
+    ++ " im " ++ showMat (toMat m.nu m.nin m.inp)
+    ++ " om " ++ showMat (toMat m.nout (m.ny + m.nu) m.out)
+
+/-! operator expressions -/
+
+inductive OpExpr where
+  | leaf (s : SysData)
+  | const (p m : Nat) (D : Matrix (Fin p) (Fin m) Q)
+  | add (a b : OpExpr)
+  | sub (a b : OpExpr)
+  | mul (a b : OpExpr)
+  | neg (a : OpExpr)
+  | fb (a b : OpExpr) (sign : Q)
+
+partial def pOpExpr : P OpExpr := do
+  let t ← tok
+  match t with
+  | "s" => do pure (.leaf (← pSys))
+  | "k" => do
+    let p ← pNat
+    let m ← pNat
+    let D ← pMatSized p m
+    pure (.const p m D)
+  | "add" => do
+    let a ← pOpExpr
+    let b ← pOpExpr
+    pure (.add a b)
+  | "sub" => do
+    let a ← pOpExpr
+    let b ← pOpExpr
+    pure (.sub a b)
+  | "mul" => do
+    let a ← pOpExpr
+    let b ← pOpExpr
+    pure (.mul a b)
+  | "neg" => do pure (.neg (← pOpExpr))
+  | "fb" => do
+    let a ← pOpExpr
+    let b ← pOpExpr
+    let sg ← pRat
+    pure (.fb a b sg)
+  | _ => throw s!"opexpr:{t}"
+
+/-- a node of an operator expression: what the node above sees of it (signal counts, linear
+dynamics) and, for an operator node, its three maps. -/
+structure Node where
+  sig : SysSig
+  lin : DSS Q
+  maps : Option (Maps Q)
+
+def anonSig (m p : Nat) : SysSig :=
+  ⟨"_", List.replicate m ⟨"_", none⟩, List.replicate p ⟨"_", none⟩⟩
+
+/-- the `InterconnectedSystem` an operator returns, from its subsystems and its maps. -/
+def combine (kids : List Node) (r : Except Err (Maps Q)) : Except String (Except Err Node) :=
+  match r with
+  | .error e => .ok (.error e)
+  | .ok m =>
+    match stack (kids.map (·.lin)) with
+    | .error e => .error s!"stack:{e}"
+    | .ok G =>
+      match linearSys kids.length m G with
+      | .error e => .error e
+      | .ok (.error e) => .ok (.error e)
+      | .ok (.ok T) => .ok (.ok ⟨anonSig m.nin m.nout, T, some m⟩)
+
+def bin (ra rb : Except Err Node) (f : Node → Node → Except String (Except Err Node)) :
+    Except String (Except Err Node) :=
+  match ra, rb with
+  | .error e, _ => .ok (.error e)
+  | _, .error e => .ok (.error e)
+  | .ok x, .ok y => f x y
+
+def evalOp : OpExpr → Except String (Except Err Node)
+  | .leaf s =>
+    match s.lin with
+    | some g => .ok (.ok ⟨s.sig, g, none⟩)
+    | none => .error "leaf-not-linear"
+  | .const p m D => .ok (.ok ⟨anonSig m p, ⟨0, p, m, ⟨0, 0, 0, D⟩, .cont⟩, none⟩)
+  | .add a b => do
+    bin (← evalOp a) (← evalOp b) fun x y => combine [x, y] (opAdd x.sig y.sig)
+  | .sub a b => do
+    bin (← evalOp a) (← evalOp b) fun x y => combine [x, y] (opSub x.sig y.sig)
+  | .mul a b => do
+    bin (← evalOp a) (← evalOp b) fun x y => combine [y, x] (opSeries y.sig x.sig)
+  | .neg a => do
+    match (← evalOp a) with
+    | .error e => pure (.error e)
+    | .ok x => combine [x] (opNeg x.sig)
+  | .fb a b sg => do
+    bin (← evalOp a) (← evalOp b) fun x y => combine [x, y] (opFeedback x.sig y.sig sg)
+
+def runOp : P String := do
+  let e ← pOpExpr
+  match evalOp e with
+  | .error e => throw e
+  | .ok (.error e) => pure (showErr e)
+  | .ok (.ok nd) =>
+    match nd.maps with
+    | none => throw "op-leaf"
+    | some m => pure (showMaps m ++ " " ++ showLin nd.lin)
 
 def run : P String := do
   let syss ← pList pSys
@@ -205,9 +323,7 @@ def run : P String := do
   match interconnect args with
   | .error e => pure (showErr e)
   | .ok m =>
-    let head := s!"ok {m.nin} {m.nout} cm " ++ showMat (toMat m.nu m.ny m.connect)
-      ++ " im " ++ showMat (toMat m.nu m.nin m.inp)
-      ++ " om " ++ showMat (toMat m.nout (m.ny + m.nu) m.out)
+    let head := showMaps m
     match syss.mapM (·.lin) with
     | none => pure (head ++ " nl")
     | some lins =>
@@ -219,6 +335,9 @@ def run : P String := do
         | .ok (.error e) => pure (showErr e)
         | .ok (.ok s) => pure (head ++ " " ++ s)
 
-def handle (toks : List String) : String := runLine run toks
+def handle (toks : List String) : String :=
+  match toks with
+  | "op" :: rest => runLine runOp rest
+  | _ => runLine run toks
 
 end CtrlVerif.Driver.IC
